@@ -507,6 +507,16 @@ impl<D: Store + Mk> GarnishData for Mon<D> {
     fn merge_to_symbol_list(&mut self, a: usize, b: usize) -> Result<usize, DataError> {
         self.tick()?;
         self.data_budget()?;
+        // a restart that merges a symbol list with itself (`^~ $.$`) doubles one data item on every round: the
+        // data budget counts items, so the length of the merged list is bounded here
+        let part_len = |d: &D, x: usize| match d.get_data_type(x) {
+            Ok(GarnishDataType::SymbolList) => d.get_symbol_list_len(x).unwrap_or(1),
+            _ => 1,
+        };
+        if part_len(&self.d, a) + part_len(&self.d, b) > 65_536 {
+            self.budget_hit = Some("data");
+            return Err(DataError::from("verif budget: data (symbol list length)".to_string()));
+        }
         let r = self.d.merge_to_symbol_list(a, b);
         self.logd("symlist", &r);
         r
